@@ -52,9 +52,9 @@ def gen_node(rng, depth, counter, allow_inst):
             n['children'].append(['geom', rng.randint(0, 3)])
         elif r < 0.6:
             n['children'].append(['cam', rng.randint(0, 3)])
-        elif r < 0.7:
+        elif r < 0.75:
             n['children'].append(['light', rng.randint(0, 3)])
-        elif r < 0.9 and depth < 2:
+        elif r < 0.92 and depth < 2:
             n['children'].append(['node', gen_node(rng, depth + 1, counter, allow_inst)])
         elif allow_inst:
             n['children'].append(['inst', rng.randint(0, 3)])
@@ -145,6 +145,18 @@ def gen_geom(rng):
     return g
 
 
+def gen_light(rng):
+    """every light kind; point and spot lights also with any subset of their optional parameters
+    left unspecified (None), as a file without those elements gives"""
+    k = rng.choice(['dir', 'amb', 'point', 'spot', 'point?', 'spot?', 'point?', 'spot?'])
+    if not k.endswith('?'):
+        return k
+    opt = lambda v: rng.choice([None, None, v])
+    if k == 'point?':
+        return ['point', opt(1.0), opt(0.5), opt(0.25)]
+    return ['spot', opt(1.0), opt(0.5), opt(0.25), opt(30.0), opt(2.0)]
+
+
 def gen_doc(rng):
     r = rng.random()
     if r < 0.3:
@@ -154,7 +166,7 @@ def gen_doc(rng):
     spec = {'kind': 'ctor' if r < 0.7 else 'reload', 'image': rng.random() < 0.5,
             'geoms': [gen_geom(rng) for _ in range(rng.choice([1, 1, 2, 3]))],
             'cameras': [rng.choice(['persp', 'ortho']) for _ in range(rng.choice([0, 1, 2]))],
-            'lights': [rng.choice(['dir', 'amb', 'point', 'spot']) for _ in range(rng.choice([0, 1, 2]))]}
+            'lights': [gen_light(rng) for _ in range(rng.choice([0, 1, 2, 3]))]}
     spec['libnodes'] = [gen_node(rng, 1, counter, False) for _ in range(rng.choice([0, 0, 1]))]
     spec['nodes'] = [gen_node(rng, 0, counter, bool(spec['libnodes'])) for _ in range(rng.choice([1, 1, 2]))]
     return spec
@@ -264,6 +276,11 @@ SKIN_XML = '''<?xml version="1.0" encoding="utf-8"?>
 BIND_XML = '''<?xml version="1.0" encoding="utf-8"?>
 <COLLADA xmlns="http://www.collada.org/2005/11/COLLADASchema" version="1.4.1">
  <asset><created>2020-01-02T03:04:05</created><modified>2020-01-02T03:04:05</modified><up_axis>Y_UP</up_axis></asset>
+ <library_lights>
+  <light id="pl0"><technique_common><point><color>1 1 1</color></point></technique_common></light>
+  <light id="pl1"><technique_common><point><color>1 0 1</color><linear_attenuation>0.5</linear_attenuation></point></technique_common></light>
+  <light id="sl0"><technique_common><spot><color>1 1 0</color><falloff_angle>30</falloff_angle></spot></technique_common></light>
+ </library_lights>
  <library_effects><effect id="fx0"><profile_COMMON><technique sid="common"><phong><diffuse><color>1 0.5 0.25 1</color></diffuse></phong></technique></profile_COMMON></effect>
   <effect id="fx1"><profile_COMMON><technique sid="common"><lambert><diffuse><color>0 0.5 0.25 1</color></diffuse></lambert></technique></profile_COMMON></effect></library_effects>
  <library_materials><material id="mat0" name="m0"><instance_effect url="#fx0"/></material><material id="mat1" name="m1"><instance_effect url="#fx1"/></material></library_materials>
@@ -284,7 +301,8 @@ BIND_XML = '''<?xml version="1.0" encoding="utf-8"?>
      <instance_material symbol="symA" target="#mat0"><bind_vertex_input semantic="TEX0" input_semantic="TEXCOORD"/></instance_material>
      <instance_material symbol="symB" target="#mat1"><bind_vertex_input semantic="TEX1" input_semantic="TEXCOORD" input_set="1"/><bind_vertex_input semantic="TEX2" input_semantic="TEXCOORD"/></instance_material>
    </technique_common></bind_material></instance_geometry>
-   <node id="n1"><translate>0 1 0</translate><rotate>1 0 0 90</rotate><instance_geometry url="#mesh0"/></node></node>
+   <node id="n1"><translate>0 1 0</translate><rotate>1 0 0 90</rotate><instance_geometry url="#mesh0"/>
+    <instance_light url="#pl0"/><instance_light url="#sl0"/></node><instance_light url="#pl1"/></node>
  </visual_scene></library_visual_scenes>
  <scene><instance_visual_scene url="#vs"/></scene>
 </COLLADA>
